@@ -87,6 +87,12 @@ class ServerCore:
         return self.conn.recv(65536)
 
     def _close(self):
+        # shutdown first: close() alone does not end the connection while another thread of this server is blocked in recv() on
+        # the same socket (the peer would then see no EOF until that recv returns)
+        try:
+            self.conn.shutdown(socket.SHUT_RDWR)
+        except Exception:
+            pass
         try:
             self.conn.close()
         except Exception:
@@ -156,7 +162,8 @@ class ServerCore:
                 except Exception:
                     d = b''
                 if not d:
-                    self.eof_seen.set()
+                    if not self.closed:          # EOF caused by the PEER (after our own shutdown recv returns b'' as well)
+                        self.eof_seen.set()
                     break
                 self.rx += d
                 hello, payloads = self.decode_rx()
